@@ -9,20 +9,28 @@
    for every slot.  Under that contract the theorems below hold for EVERY script, callback
    environment, errno side effect and arrival point.  Overall level: "partial".
 
-   Full statement of the property's first half (every watcher of a delivered signal is
-   invoked, in registration order, within the next iterations):
-     forall env ops, xspec_run env ops = the log of srun fixed_cfg env fuel ops
-   (LoopSigSpec: snapshot semantics with no errno, no revents table, no pending set).  This
-   refinement is NOT proved here; it is checked on every run by the correspondence
-   (implementation = model = specification on all generated cases).  Proved instead:
-   C18_interrupted_iteration_dispatches + C18_all_watchers_invoked (every watcher of a recorded
-   signal is invoked once, in order -- for signal callbacks that leave the signal watch list
-   alone; with cancelling callbacks only C18_cancelled_not_invoked is proved), C18_signal_reaches (nothing the handler recorded survives an iteration -- which is exactly
-   what fails on the pinned code), C18_kernel_pending_delivered, C18_cancelled_not_invoked,
-   C18_io_exact (with C18_table_consistent, C18_poll_reports, C18_new_slot_silent), and the two
-   refutations of the pinned behaviour. *)
+   One specification.  LoopSigSpec.xspec_run is the snapshot specification (no errno, no
+   revents table, no pending set inside the loop: an identity snapshot of the IO watches taken
+   at ppoll, identity snapshots of the watchers of each delivered signal, each still live at
+   its turn).  C18_refines: for every callback environment and script (hypothesis act_ok:
+   registered descriptors are >= 0, and a callback watching signal S does not register a
+   further watch of S -- whether tickit_evloop_invoke_sigwatches reaches a watch appended
+   during the walk depends on whether the running watch was the last one) and every ppoll
+   outcome stream, the iteration model of the repaired loop -- slot table with revents,
+   handler's pending set, errno latch, cursor walk -- produces exactly the specification's log,
+   and never takes one of its "cannot happen" branches (it answers None only when it is given
+   too little fuel).  C18_all_watchers_invoked is the same statement for one call of
+   dispatch_signals, for callbacks that cancel and register watches (self-cancel, cancel of
+   the next watcher, registration of watches of other signals included).  The remaining
+   theorems are consequences or statements about single steps kept for their own sake:
+   C18_signal_reaches (nothing the handler recorded survives an iteration -- which is exactly
+   what fails on the pinned code), C18_interrupted_iteration_dispatches,
+   C18_all_watchers_invoked_passive (explicit log for callbacks that leave the signal watch
+   list alone), C18_kernel_pending_delivered, C18_cancelled_not_invoked, C18_io_exact (with
+   C18_table_consistent, C18_poll_reports, C18_new_slot_silent), and the two refutations of
+   the pinned behaviour.  Implementation = model is tested (correspondence), not proved. *)
 From Coq Require Import ZArith List.
-From Tickit Require Import LoopDefs LoopSigDefs LoopSigProofs LoopSigIO LoopPipeDefs LoopPipeProofs.
+From Tickit Require Import LoopDefs LoopSigDefs LoopSigProofs LoopSigIO LoopSigSpec LoopSigRefine LoopPipeDefs LoopPipeProofs.
 Import ListNotations.
 Local Open Scope Z_scope.
 
@@ -43,18 +51,58 @@ Theorem C18_interrupted_iteration_dispatches : forall env fuel sleep s s2,
 Proof. exact stick_interrupted. Qed.
 Print Assumptions C18_interrupted_iteration_dispatches.
 
-(* ... and dispatch_signals invokes every callback watching a recorded signal exactly once,
-   signals ascending, watchers in registration (list) order -- proved for signal callbacks that
-   do not themselves cancel or register signal watches (they may set errno, raise signals,
-   register deferred callbacks and IO watches); the deferred callbacks before it are arbitrary *)
-Theorem C18_all_watchers_invoked : forall c env fuel s,
+(* the iteration model refines the snapshot specification: same log for every script and every
+   ppoll outcome stream (SReady / SArrive / SRaise place the outcomes), with enough fuel *)
+Theorem C18_refines : forall env, env_ok env -> forall ops, Forall (op_ok env) ops ->
+  exists f0, forall fuel, (f0 <= fuel)%nat -> srun fixed_cfg env fuel ops = Some (xspec_run env ops).
+Proof. exact refines_xspec. Qed.
+Print Assumptions C18_refines.
+
+(* C18_refines is not vacuous: a callback environment that satisfies its hypothesis in which the
+   first of three watchers of a signal cancels its own watch and the next one and registers a
+   watch of another signal and a deferred callback; model = specification = the log shown *)
+Theorem C18_refines_witness :
+  env_ok wr_env /\ Forall (op_ok wr_env) wr_ops /\
+  srun fixed_cfg wr_env 50 wr_ops = Some (xspec_run wr_env wr_ops) /\
+  xspec_run wr_env wr_ops =
+    [OPoll (-1); OEv (mkE 0 KSig EV_FIRE 1 0 10); OEv (mkE 2 KSig EV_FIRE 1 0 10);
+     OPoll 0; OEv (mkE 4 KLater (EV_FIRE + EV_UNBIND) 2 0 0); OEv (mkE 3 KSig EV_FIRE 2 0 12);
+     OPoll 0; OEv (mkE 3 KSig EV_FIRE 3 0 12); OEv (mkE 2 KSig (EV_UNBIND + EV_DESTROY) (-1) 0 10)].
+Proof. exact (conj wr_env_ok (conj wr_ops_ok refines_witness)). Qed.
+Print Assumptions C18_refines_witness.
+
+(* every script reaches a state that satisfies the invariant J (table consistent, identities
+   unique and below the counter, every IO watch owns its slot), with no batch of deferred
+   callbacks being run and nothing recorded by the handler *)
+Theorem C18_invariant_reachable : forall env, env_ok env -> forall ops, Forall (op_ok env) ops ->
+  exists s, J env s /\ drun s = [] /\ pending s = [] /\
+  exists f0, forall fuel, (f0 <= fuel)%nat -> srun_ops fixed_cfg env fuel ops = Some s.
+Proof. exact reach_J. Qed.
+Print Assumptions C18_invariant_reachable.
+
+(* ... and dispatch_signals takes the recorded signals in ascending order; for each, the watches
+   of that signal that are in the list at that moment are visited in registration order, and
+   each one that is still live when its turn comes is invoked exactly once (x_run_sigs is the
+   executable form of this sentence) -- for callbacks that cancel and register whatever they
+   like, their own watch and the next one included (act_ok: not a further watch of the signal
+   being dispatched).  The walk always terminates and never meets a freed watch. *)
+Theorem C18_all_watchers_invoked : forall env, env_ok env -> forall s, J env s ->
+  exists s', (xabs s' = x_run_sigs env (sort_z (pending s)) (xabs s) /\ pending s' = [] /\ J env s') /\
+  exists f0, forall fuel, (f0 <= fuel)%nat -> dispatch_signals fixed_cfg env fuel s = Some s'.
+Proof. exact dispatch_invokes_live. Qed.
+Print Assumptions C18_all_watchers_invoked.
+
+(* the same with the log written out, for signal callbacks that do not themselves cancel or
+   register signal watches (they may set errno, raise signals, register deferred callbacks and
+   IO watches); holds for both configurations *)
+Theorem C18_all_watchers_invoked_passive : forall c env fuel s,
   NoDup (map g_id (sgws s)) ->
   (forall v, In v (sgws s) -> forallb sig_quiet (env (g_cb v)) = true) ->
   (length (sgws s) + 1 < fuel)%nat ->
   exists s', dispatch_signals c env fuel s = Some s' /\
              slog s' = rev (invoked s (sort_z (pending s))) ++ slog s /\ pending s' = [] /\ sgws s' = sgws s.
 Proof. exact dispatch_invokes_all. Qed.
-Print Assumptions C18_all_watchers_invoked.
+Print Assumptions C18_all_watchers_invoked_passive.
 
 (* a ppoll that reports no ready descriptor leaves nothing pending in the kernel *)
 Theorem C18_kernel_pending_delivered : forall s ret s1, ppoll s = (ret, s1) -> ret <= 0 -> kpend s1 = [].
